@@ -97,9 +97,23 @@ def build_harness(name):
         return rc == 0, out
 
 
-def harness(name, cmd, cases, timeout_ms=5000, batch_timeout=600):
+def harness(name, cmd, cases, timeout_ms=5000, batch_timeout=600, confirm_hangs=True):
     """Run `znh cmd` over cases (dicts). Survives crashes/hangs of the worker: the case at
-    which the worker died is reported as {"crash": ...} / {"hang": true} and the rest resumes."""
+    which the worker died is reported as {"crash": ...} / {"hang": true} and the rest resumes.
+    A case reported as hanging is run once more alone with ten times the time limit (at least 20 s) before the hang is
+    believed: on a loaded machine a worker may simply not have been scheduled."""
+    results = _harness_once(name, cmd, cases, timeout_ms, batch_timeout)
+    if confirm_hangs:
+        for k, r in enumerate(results):
+            if isinstance(r, dict) and r.get("hang") and k < len(cases):
+                t = max(20000, 10 * int(cases[k].get("timeout_ms", timeout_ms)))
+                again = _harness_once(name, cmd, [dict(cases[k], timeout_ms=t)], t, batch_timeout=max(60, t // 1000 + 30))
+                if again:
+                    results[k] = again[0]
+    return results
+
+
+def _harness_once(name, cmd, cases, timeout_ms, batch_timeout):
     results = []
     i = 0
     n = len(cases)
